@@ -12,6 +12,7 @@ RULE = ("solvable stopping games with absorbing finals and no reward ties at rea
         "the exact min-cost play (policy iteration over Fractions) of Player 1's final strategy against Player 2 restricted to its "
         "reported reachability strategy.  Non-trivial: [6] differs from the reported probabilities or [7] from the reported rewards at "
         "some closure state, or a Player-2 state had >= 2 reachability-minimal actions; distinct = game hash x mode.")
+RULE += (' Also (rounds 5-6): G-GAP/G-GAPLOOP (values 1e-9..1e-4 apart around the 6-digit resolution), G-CORR, G-BIGR, G-DIGIT (digit-only / ambiguous action names), G-RETRY (cycles through state 0), G-FINREP (final states listed repeatedly, as list or tuple); a seventh of the solves pass the pruning flag as the int 1/0; an eighth of the batches each run with the root logger at DEBUG, under python -O, and with warnings raised on behalf of the repository turned into errors. run_games entries and INFO log lines (M-LOG) compared with solve() on a fifth of the games.')
 FLOOR = 200
 REQUIRED = ["solve.ok"]
 ASSUMPTIONS = ["scope is the property's own: single-action final strategies on the closure and separated rewards (gap > 2*delta*T+2e-6), "
